@@ -46,7 +46,8 @@ mention and that therefore must not change the number of executions:
                               task per message, so attempts may overlap if the broker lets them; the harness only waits until all
                               spawned work has settled and then reads what the result backend (the real InmemoryResultBackend,
                               recording) HOLDS for the task id (observation "settled").  See InMemScenario.  Options:
-      inplace: bool           InMemoryBroker(await_inplace=..)  (default False; True is not generated, see notes/C11.md)
+      inplace: bool           InMemoryBroker(await_inplace=..)  (default False; True = kick awaits the callback in place, the
+                              attempts nest inside on_error: known finding D17, generated at a small rate, see notes/C11.md)
       pool: n, stored: n      sync_tasks_pool_size, max_stored_results;  propagate / validate / A as for the Receiver
       startup: bool           broker.startup() before the send, broker.shutdown() after everything settled
       bystanders: n           n unrelated tasks (other name, other ids, really awaiting) are kicked through the same broker
